@@ -1031,7 +1031,7 @@ def main():
         "the fresh reference enforcer is a real casbin.Enforcer loading the current policy through an in-memory adapter",
     ]
     chk.trusted = ["hand-written models coq/theories/{Policy,RoleGraph,Mgmt}.v tied by the differential history correspondence"]
-    chk.build(translators=["rolelinks", "loadpolicy"], oracle_name="Mgmt")
+    chk.build(translators=["rolelinks", "loadpolicy", "grouping"], oracle_name="Mgmt")
     if chk.replay_file:
         return replay(chk)
     if chk.tier == "thorough":
